@@ -5,7 +5,7 @@ use crate::util::{parse_file, CfgEnv};
 use std::collections::HashMap;
 use syn::ImplItem;
 
-pub const REQUIRED: &[&str] = &["is_roughly_equal", "into_option", "maybe_set", "is_definite", "unwrap_or", "TaffyMaxContent_MAX_CONTENT", "Size.TaffyMaxContent_MAX_CONTENT"];
+pub const REQUIRED: &[&str] = &["is_roughly_equal", "into_option", "maybe_set", "is_definite", "unwrap_or", "TaffyMaxContent_MAX_CONTENT", "Size.TaffyMaxContent_MAX_CONTENT", "map_definite_value", "from_f32", "from_option"];
 
 /// the associated constants of one `impl Trait for X` block, registered as `Trait::NAME`
 fn trait_consts(out: &mut Out, w: &mut World, info: &ImplInfo, env: &CfgEnv, head: &str, tr: &str, prefix: &str, self_ty: Ty, generics: &HashMap<String, Ty>) -> Result<(), String> {
@@ -37,6 +37,24 @@ pub fn extract(repo: &str, w: &mut World) -> Result<String, String> {
         if info.trait_.is_none() && info.self_ty == "Size<AvailableSpace>" {
             let st = Ty::adt("Size", vec![Ty::adt("AvailableSpace", vec![])]);
             impl_items(&mut out, w, info, &env, "Size", Some(st), &HashMap::new(), "Size.", &[], &[])?;
+        }
+    }
+    // `impl From<f32> for AvailableSpace` / `impl From<Option<f32>> for AvailableSpace` (`known.map(AvailableSpace::from)`: the argument type
+    // selects the impl)
+    for info in &v {
+        let suffix = match (info.self_ty.as_str(), info.trait_.as_deref()) {
+            ("AvailableSpace", Some("From<f32>")) => "f32",
+            ("AvailableSpace", Some("From<Option<f32>>")) => "option",
+            _ => continue,
+        };
+        for ii in info.items {
+            if let ImplItem::Fn(ff) = ii {
+                if ff.sig.ident == "from" {
+                    let lean_rel = format!("from_{suffix}");
+                    let req = REQUIRED.contains(&lean_rel.as_str());
+                    out.function(w, crate::emit::Plan { head: "AvailableSpace".into(), rust_name: "from".into(), lean_rel, self_ty: Some(Ty::adt("AvailableSpace", vec![])), generics: HashMap::new(), sig: &ff.sig, block: &ff.block, required: req, trunc_sub: false, ext: Default::default() });
+                }
+            }
         }
     }
     // `TaffyMaxContent` / `TaffyMinContent` for `AvailableSpace`, and the `Size<T>` impl of src/style_helpers.rs at `T = AvailableSpace`
